@@ -14,6 +14,13 @@
     src/network/server.rs          `handle_exec` (checks every watched key in the database selected at EXEC time,
                                    clears the watch list, does not unregister), `handle_select`
 
+  A SELECT sent inside MULTI is queued (`step … (.select c d)` with `inTx`: the queue grows, nothing is selected).
+  Since repo commit 2147747 `handle_exec` executes it when EXEC runs: the commands queued after it run in the
+  selected database and the selection stays.  The watched keys are checked BEFORE anything runs, so for this
+  machine such an EXEC is the event `exec c ops₀` (the operations queued before the first SELECT) followed — only if
+  EXEC executed — by `select c d` and `cmd c opsᵢ` events of the same connection, which has left MULTI by then
+  (lib/c08.py mirrors it that way); the theorems quantify over all event sequences, these included.
+
   Storage operations are abstracted to what matters for WATCH: an operation names the storage function
   (a row of the regenerated table `Gen.storageFns`), the key, whether that function passes this key to
   `mark_modified` (from the table), and what it did to the stored entry (`Eff`).
